@@ -330,3 +330,41 @@ def rot_angle(R):
 def quat_angle(q):
     q = np.asarray(q, dtype=np.float64)
     return 2 * math.atan2(np.linalg.norm(q[:3]), abs(q[3]))
+
+
+# ------------------------------------------------------------------------------------
+# logarithm (numpy float64, principal branch) and Jacobians
+def W_np(phi, sigma):
+    """W = int_0^1 exp(u (sigma I + [phi]x)) du in float64 (via the mp closed form)"""
+    x = np.concatenate([np.zeros(3), phi, [sigma]])
+    return exp_ref_parts("sim3", x)["W"]
+
+
+def log_np(glt, X):
+    """principal logarithm of a group element (float64); rotation angle in [0, pi]"""
+    t, q, s = split_group(glt, X)
+    q = np.asarray(q, dtype=np.float64)
+    q = q / np.linalg.norm(q)
+    if q[3] < 0:
+        q = -q
+    vn = float(np.linalg.norm(q[:3]))
+    if vn < 1e-150:
+        phi = 2.0 * q[:3]
+    else:
+        phi = (2.0 * math.atan2(vn, q[3]) / vn) * q[:3]
+    sigma = math.log(s) if glt in ("RxSO3", "Sim3") else 0.0
+    alt = ALG_OF[glt]
+    if glt in ("SE3", "Sim3"):
+        tau = np.linalg.solve(W_np(phi, sigma), t)
+    else:
+        tau = np.zeros(3)
+    return join_alg(alt, tau, phi, sigma)
+
+
+def Jl(alt, x):
+    """left Jacobian of the exponential: phi1(ad x)"""
+    return phi1(ad(alt, x))
+
+
+def Jl_inv(alt, x):
+    return np.linalg.inv(Jl(alt, x))
